@@ -409,7 +409,7 @@ class C08(Prop):
             'offset of streams <= 400 bytes (40 drawn offsets above) is re-run and must give the same per-line output, one item for a partial '
             'line, then only Closed notices. non-trivial = stream with >= 3 message lines and >= 2 non-message lines not all adjacent; distinct '
             'by SHA-1 of the case. cli-options: main.py -p / -l with drawn combinations of -b, -f <everything>, --supress in drawn order: message '
-            'and passed-through line counts vs the stream (non-trivial = >= 2 option words and >= 2 messages).')
+            'and passed-through line counts vs the stream (non-trivial = >= 2 option words and >= 2 messages). many-connections: streams of up to 18 300 connections with chatter: one item per line before the next read.')
     assumptions = ['New/Closed notices and time-gap separator lines are not items (C04, C16)',
                    'chatter contains no timestamp-shaped token, so it denotes no message by an independent definition']
     stages = [Streams(), ManyConnections(), CliOptions(), CliPacing()]
